@@ -424,6 +424,9 @@ func runLifeMode(mode string, r *vlib.Rand, keys map[string]struct{}) {
 				}
 			}
 		}
+		if only := os.Getenv("VERIF_LIFE_ONLY_CFG"); only != "" && c.String() != only { // debugging aid: one configuration only
+			continue
+		}
 		if i%6 == 5 { // client engines: Dial/Enroll, connected UDP sockets, Client.Stop (every other one: Stop twice)
 			c.ReusePort = false
 			n := runClientLifeCase(c, res.Seed*1000231+uint64(i), r.Pick(3, 8, 20), i%12 == 11 || mode == "c07", i%12 == 5, keys)
